@@ -783,6 +783,108 @@ func ruleOptionalDeref(c *Ctx) {
 		}
 	}
 	c.census("N-NIL", "dereferences of optional parts of a posting", n, 10)
+	// ... and the tree a loader hands back: Load / LoadFromContent return a nil tree when they refuse the text (over
+	// the size limit, unreadable).  A field of such a tree is read only behind a nil test of it - in the function that
+	// made the call, or, when the tree is passed on unguarded, in the callee that reads it.
+	isLoaderTree := func(v ssa.Value) bool {
+		// a variable captured by a closure lives in a cell: look at what is stored into it
+		if un, ok := v.(*ssa.UnOp); ok && un.Op == token.MUL {
+			if al, ok := un.X.(*ssa.Alloc); ok && al.Referrers() != nil {
+				var stored []ssa.Value
+				for _, r := range *al.Referrers() {
+					if st, ok := r.(*ssa.Store); ok && st.Addr == ssa.Value(al) {
+						stored = append(stored, st.Val)
+					}
+				}
+				if len(stored) == 1 {
+					v = stored[0]
+				}
+			}
+		}
+		ex, ok := v.(*ssa.Extract)
+		if !ok || ex.Index != 0 {
+			return false
+		}
+		call, ok := ex.Tuple.(*ssa.Call)
+		if !ok {
+			return false
+		}
+		cal := call.Call.StaticCallee()
+		return cal != nil && cal.Signature.Recv() != nil && typeHasSuffix(cal.Signature.Recv().Type(), "include.Loader") && typeHasSuffix(ex.Type(), "include.ResolvedJournal")
+	}
+	nilGuarded := func(b *ssa.BasicBlock, v ssa.Value) bool {
+		for _, cc := range controlCondsPol(b) {
+			bo, ok := cc.Cond.(*ssa.BinOp)
+			if !ok {
+				continue
+			}
+			for _, pr := range [][2]ssa.Value{{bo.X, bo.Y}, {bo.Y, bo.X}} {
+				same := pr[0] == v
+				if l1, ok := pr[0].(*ssa.UnOp); ok && !same {
+					if l2, ok := v.(*ssa.UnOp); ok && l1.Op == token.MUL && l2.Op == token.MUL && l1.X == l2.X {
+						same = true // two loads of one cell
+					}
+				}
+				if k, isK := pr[1].(*ssa.Const); isK && k.IsNil() && same {
+					if (bo.Op == token.NEQ && cc.Taken) || (bo.Op == token.EQL && !cc.Taken) {
+						return true
+					}
+				}
+			}
+		}
+		return false
+	}
+	nTree := 0
+	for _, f := range c.P.ModuleFuncs() {
+		for _, b := range f.Blocks {
+			for _, ins := range b.Instrs {
+				fa, ok := ins.(*ssa.FieldAddr)
+				if !ok || !typeHasSuffix(fa.X.Type(), "include.ResolvedJournal") {
+					continue
+				}
+				bad := ""
+				switch v := fa.X.(type) {
+				case *ssa.Extract:
+					if isLoaderTree(v) && !nilGuarded(b, v) {
+						bad = "the tree returned by the loader"
+					}
+				case *ssa.UnOp:
+					if !isLoaderTree(v) {
+						continue
+					}
+					if !nilGuarded(b, v) {
+						bad = "the tree returned by the loader"
+					}
+				case *ssa.Parameter:
+					if nilGuarded(b, v) {
+						break
+					}
+					idx := -1
+					for i, q := range f.Params {
+						if q == v {
+							idx = i
+						}
+					}
+					for _, site := range (cgView{c}).callersOf(f) {
+						if idx < 0 || idx >= len(site.Common().Args) {
+							continue
+						}
+						a := site.Common().Args[idx]
+						if isLoaderTree(a) && !nilGuarded(site.Block(), a) {
+							bad = "the tree " + funcName(site.Parent()) + " got from the loader and passes on without a nil test"
+						}
+					}
+				default:
+					continue
+				}
+				nTree++
+				c.check(bad == "", "N-NIL", funcName(f), "a tree handed back by the loader is read behind a nil test: "+fieldVarOfAddr(fa).Name(), fa.Pos(),
+					"the read is guarded, or the tree does not come straight from a loader call",
+					"a field of "+bad+" is read without a nil test: the loader returns a nil tree when it refuses the text (over the configured size limit), so the read panics - on the background goroutine, where nothing recovers, the server dies")
+			}
+		}
+	}
+	c.note("N-NIL: field reads of loader trees judged: %d", nTree)
 }
 
 // ruleCrossIndex (U-XSTR): a byte position obtained by ranging over one string is only meaningful in that string;
